@@ -13,7 +13,7 @@ EXOTIC = ['\r', '\x0b', '\x0c', '\x1c', '\x1d', '\x1e', '\x85', '\u2028', '\u202
 def variant_text(text, sc, kind):
     """Other characters, same shape: only "\n" is a line break, so index/line/column expectations do not change.
     exotic: a character that str.splitlines() (but not the property) treats as a line boundary, before the error;
-    blanks: everything from the error index to the end of the text is blank."""
+    blanks: everything from the error index to the end of the text is blank; bom: the text starts with U+FEFF."""
     S = sc['P'] * (PREF + 1)
     pos = sc['index']
     if kind == 'exotic':
@@ -25,6 +25,11 @@ def variant_text(text, sc, kind):
         if not sc['last'] or sc['atend']:
             return None
         return text[:pos] + ' ' * (len(text) - pos)
+    if kind == 'bom':
+        # U+FEFF as the first character is a character like any other: it counts in index and column
+        if pos < 1 or not text or text[0] == '\n' or sc['atend']:
+            return None
+        return '\ufeff' + text[1:]
     return None
 
 
@@ -61,7 +66,7 @@ def excerpt_worker(case):
         res = {}
         runs = [('ParseError', g_err, text), ('PartialParseError', g_part, text), ('bytes', g_bytes, text.encode('ascii'))]
         if (sc['L'] * 7 + sc['col']) % 5 == 0:
-            for vk in ('exotic', 'blanks'):
+            for vk in ('exotic', 'blanks', 'bom'):
                 vt = variant_text(text, sc, vk)
                 if vt is not None:
                     runs.append(('ParseError/' + vk, g_err, vt))
